@@ -2,7 +2,7 @@
 The auxiliary bipartite graph of `GraphEdgesVariables` (edges of a simple graph oriented
 from the smaller to the larger endpoint) and the incident-edge lists of a vertex.
 -/
-import Lemmas.FamBip
+import Lemmas.C01Bip
 import CnfgenModel.Fam.Counting
 namespace Cnfgen.Fam
 open Cnfgen
